@@ -199,6 +199,9 @@ def run(run):
         layouts = [(40, 2, True), (40, 5, True), (40, 12, False), (40, 20, True), (12, 3, True), (60, 35, True)]
     cases = [(p, n, k, kn) for p in names for (n, k, kn) in layouts]
     run_cases(run, "vf.props.C10", "check_case", cases, {"tier": run.tier}, chunk=1)
+    from vf.contracts.registry import run_property_specs
+
+    run_property_specs(run, "C10")
     run.assume("results compared up to row order / partition layout (and index labels after joins); pandas as the additional oracle for the default setting")
     run.assume("p2p shuffle method is outside the claim (distributed is not installed)")
     run.trust("knob program list in vf/props/C10.py; comparator vf/rt/den.py")
